@@ -497,6 +497,12 @@ func runC14(c *core.Ctx) {
 				}
 				k := r.Pick(len(x.Keys)) // the defective key is not always the first one
 				x.Keys[k].Data = r.Bytes(wrongLen(r, len(x.Keys[k].Data)))
+				// ... and may come after a key of a type the library does not know (a validation loop
+				// that stops at the first key it cannot size leaves the later ones unchecked)
+				if k > 0 && r.Chance(1, 2) {
+					u := r.Pick(k)
+					x.Keys[u] = rm.EncKey{Type: uint16([]int{8, 255, 0xFF01, 65280, 65535}[r.Pick(5)]), Data: r.Bytes(r.Pick(70))}
+				}
 			})
 		case 1:
 			try("reserved flag bits set", func(x *rm.LeaseSet2) { x.Flags |= uint16(1) << uint(3+r.Pick(13)) })
